@@ -114,7 +114,7 @@ Definition jmeasure (s : jstate) : nat :=
   + (5 * length (q_busy (j_q s)) + lines (q_busy (j_q s)))
   + (4 * length (q_out (j_q s)) + lines (q_out (j_q s)))
   + (match q_done (j_q s) with Some _ => 1 | None => 0 end)
-  + wc (c_pc (j_c s)) + c_unprod (j_c s) + (if c_ext (j_c s) then 0 else 1).
+  + wc (c_pc (j_c s)) + c_unprod (j_c s) + (if c_ext (j_c s) then 0 else 1) + (if r_err (j_r s) then 0 else 10).
 
 Ltac destr_match H :=
   match type of H with
@@ -154,7 +154,7 @@ Proof.
     apply jstep_measure in E. specialize (IH _ _ H). lia.
 Qed.
 
-Lemma jmeasure_init : forall p, jmeasure (jinit p) = 10 * jp_n p + 13.
+Lemma jmeasure_init : forall p, jmeasure (jinit p) = 10 * jp_n p + 23.
 Proof. intros. unfold jmeasure, jinit, lines. simpl. lia. Qed.
 
 (* ------------------------------------------------------------------------------------------------ *)
@@ -180,7 +180,9 @@ Record Inv (p : jparams) (s : jstate) : Prop := mkInv {
   inv_done1 : is_rexit (r_pc (j_r s)) = false -> q_done (j_q s) = None /\ c_dseen (j_c s) = false;
   inv_done2 : is_rexit (r_pc (j_r s)) = true -> jcancelled s = false -> q_done (j_q s) <> None \/ c_dseen (j_c s) = true;
   (* a consumer back at the select after `done` still misses lines *)
-  inv_sel : c_pc (j_c s) = CSel -> c_dseen (j_c s) = true -> c_recvl (j_c s) <> r_lread (j_r s)
+  inv_sel : c_pc (j_c s) = CSel -> c_dseen (j_c s) = true -> c_recvl (j_c s) <> r_lread (j_r s);
+  (* the scanner only fails on a closed file after Run has returned *)
+  inv_rerr : r_err (j_r s) = true -> c_pc (j_c s) = CRet
 }.
 
 Lemma inv_init : forall p, Inv p (jinit p).
@@ -204,7 +206,7 @@ Ltac inv_goal :=
 
 Lemma inv_step : forall p s l s', Inv p s -> jstep p s l = Some s' -> Inv p s'.
 Proof.
-  intros p [[lf cu rp lr re] [tk jb bs ou dn] [cp ds rc up pl ex]] l s' [I1 I2 I3 I4 I5 I6 I7 I8] H.
+  intros p [[lf cu rp lr re] [tk jb bs ou dn] [cp ds rc up pl ex]] l s' [I1 I2 I3 I4 I5 I6 I7 I8 I9] H.
   unfold outstanding, jcancelled in *; simpl in *.
   destruct l; step_cases H; inv_goal;
     try solve [ lia | congruence | discriminate | tauto
@@ -230,7 +232,7 @@ Lemma json_workers_never_block : forall p s, jvalid p -> jreach p s ->
   forall j, In j (q_busy (j_q s)) ->
   length (q_out (j_q s)) < jp_co p /\ exists s', jstep p s (JSend (jstart j)) = Some s'.
 Proof.
-  intros p s V R j Hin. pose proof (inv_reach _ _ R) as I. destruct I as [I1 I2 _ _ _ _ _ _].
+  intros p s V R j Hin. pose proof (inv_reach _ _ R) as I. destruct I as [I1 I2 _ _ _ _ _ _ _].
   destruct V as (_ & _ & _ & _ & Vco).
   assert (L : length (q_out (j_q s)) < jp_co p).
   { unfold outstanding in I1. destruct (q_busy (j_q s)); [contradiction|]. simpl in I1. lia. }
@@ -254,7 +256,7 @@ Proof.
 Qed.
 
 Definition reader_label (l : jlabel) : bool :=
-  match l with JScan | JEof | JEofClosed | JTok | JRCancel | JEnq | JDone => true | _ => false end.
+  match l with JScan | JScanTrunc | JEof | JEofClosed | JTok | JRCancel | JEnq | JDone => true | _ => false end.
 
 (* the reader goroutine: it can only wait for a token, and then only while Run has not been cancelled *)
 Lemma json_reader_live : forall p s, jvalid p -> jreach p s ->
@@ -263,10 +265,11 @@ Lemma json_reader_live : forall p s, jvalid p -> jreach p s ->
   exists l s', reader_label l = true /\ jstep p s l = Some s'.
 Proof.
   intros p [[lf cu rp lr re] [tk jb bs ou dn] [cp ds rc up pl ex]] V R J X T. simpl in *. subst jb.
-  pose proof (inv_reach _ _ R) as I. destruct I as [_ _ _ _ _ I6 _ _]. simpl in I6.
+  pose proof (inv_reach _ _ R) as I. destruct I as [_ _ _ _ _ I6 _ _ I9]. simpl in I6, I9.
   destruct V as (_ & _ & Vcj & _).
   destruct rp; try discriminate.
-  - destruct lf; [exists JEof|exists JScan]; unfold jstep; simpl; eauto.
+  - destruct re; [rewrite (I9 eq_refl); exists JEofClosed; unfold jstep; simpl; eauto|].
+    destruct lf; [exists JEof|exists JScan]; unfold jstep; simpl; eauto.
   - destruct (T fin eq_refl) as [A|A].
     + exists JTok. unfold jstep; simpl. apply Nat.ltb_lt in A. rewrite A. eauto.
     + exists JRCancel. unfold jstep; simpl. unfold jcancelled in *. simpl in *. rewrite A. eauto.
@@ -286,7 +289,7 @@ Proof.
       exists l, s'. split; [destruct l; simpl in *; congruence|exact S]. }
   (* no job queued or held *)
   destruct s as [[lf cu rp lr re] [tk jb bs ou dn] [cp ds rc up pl ex]]. simpl in *. subst jb bs.
-  destruct I as [I1 I2 I3 I4 I5 I6 I7 I8]. unfold outstanding, jcancelled, jfinalb in *. simpl in *.
+  destruct I as [I1 I2 I3 I4 I5 I6 I7 I8 I9]. unfold outstanding, jcancelled, jfinalb in *. simpl in *.
   (* the consumer can move unless it is at the select with nothing to receive *)
   assert (CT : forall j, cp = CTok j -> exists l s', is_env_label l = false /\
             jstep p (mkjstate (mkreader lf cu rp lr re) (mkpool tk [] [] ou dn) (mkcons cp ds rc up pl ex)) l = Some s').
@@ -355,7 +358,7 @@ Qed.
 
 Lemma tokens_okb_reach : forall p s, jvalid p -> jreach p s -> tokens_okb p s = true /\ send_room_okb p s = true.
 Proof.
-  intros p s V R. pose proof (inv_reach _ _ R) as I. destruct I as [I1 I2 _ I4 _ _ _ _].
+  intros p s V R. pose proof (inv_reach _ _ R) as I. destruct I as [I1 I2 _ I4 _ _ _ _ _].
   destruct V as (_ & _ & _ & _ & Vco). split.
   - apply tokens_okb_iff. pose proof I1 as I1'. unfold outstanding in I1. repeat split; try lia.
   - unfold send_room_okb. destruct (q_busy (j_q s)) eqn:B; [reflexivity|].
@@ -377,7 +380,7 @@ Proof.
   exists (1, 1). split; [simpl; auto|]. split; reflexivity.
 Qed.
 
-Lemma json_run_bound : forall p tr s, jrun p (jinit p) tr = Some s -> length tr <= 10 * jp_n p + 13.
+Lemma json_run_bound : forall p tr s, jrun p (jinit p) tr = Some s -> length tr <= 10 * jp_n p + 23.
 Proof. intros p tr s H. apply jrun_bound in H. rewrite jmeasure_init in H. lia. Qed.
 
 Lemma json_workers_never_block_full : forall p s, jvalid p -> jreach p s ->
@@ -385,7 +388,7 @@ Lemma json_workers_never_block_full : forall p s, jvalid p -> jreach p s ->
   forall j, In j (q_busy (j_q s)) ->
     length (q_out (j_q s)) < jp_co p /\ exists s', jstep p s (JSend (jstart j)) = Some s'.
 Proof.
-  intros p s V R. pose proof (inv_reach _ _ R) as I. destruct I as [I1 I2 _ _ _ _ _ _].
+  intros p s V R. pose proof (inv_reach _ _ R) as I. destruct I as [I1 I2 _ _ _ _ _ _ _].
   split; [exact I1|]. split; [exact I2|]. split; [destruct V as (_ & _ & _ & _ & V); exact V|].
   intros j H. exact (json_workers_never_block p s V R j H).
 Qed.
